@@ -698,7 +698,15 @@ func (e *Env) term(v ssa.Value) *Term {
 		}
 		return &Term{Op: "extract", Name: fmt.Sprint(x.Index), Args: []*Term{tup}}
 	case *ssa.Slice:
-		t := &Term{Op: "slice", Args: []*Term{e.ptrTarget(x.X)}}
+		base := e.ptrTarget(x.X)
+		if pt, ok := x.X.Type().Underlying().(*types.Pointer); ok {
+			if _, isArr := pt.Elem().Underlying().(*types.Array); isArr {
+				if al, isAlloc := x.X.(*ssa.Alloc); isAlloc && al.Comment != "varargs" && al.Comment != "slicelit" && al.Comment != "makeslice" {
+					base = e.load(x.X, x, pt.Elem()) // slicing a local array: its current contents
+				}
+			}
+		}
+		t := &Term{Op: "slice", Args: []*Term{base}}
 		for _, o := range []ssa.Value{x.Low, x.High, x.Max} {
 			if o == nil {
 				t.Args = append(t.Args, &Term{Op: "const", Name: "_"})
@@ -1168,4 +1176,9 @@ func writtenByClosure(a *ssa.Alloc) bool {
 		}
 	}
 	return false
+}
+
+// FieldName returns the name of the field a FieldAddr designates.
+func FieldName(fa *ssa.FieldAddr) string {
+	return fa.X.Type().Underlying().(*types.Pointer).Elem().Underlying().(*types.Struct).Field(fa.Field).Name()
 }
